@@ -95,6 +95,24 @@ func main() {
 			add(chain.Run(c, cfg, chain.RunOpts{Exhaustive: true, Timeout: 20 * time.Minute}))
 		}
 	}
+	// payouts are delayed by the maturity period: an immature payout spent in its own block (presented as mature), in the
+	// block exactly at the ephemeral-output height and around it
+	{
+		p := chain.Shapes()["v2only"]
+		p.EphH = 3
+		p.GenSC = []chain.AbsOut{{600000, "B"}}
+		cfg := chain.BaseConfig(p)
+		cfg.Addrs = []string{"B"}
+		cfg.Templates, cfg.Defects = []string{"form2", "res2"}, []string{"immature"}
+		cfg.Sizes, cfg.RevShifts, cfg.FormRH = []int{200}, []int{24}, [][2]int{{250024, 25}}
+		cfg.WinStarts, cfg.WinLens = []int{1}, []int{1}
+		cfg.MaxHeight, cfg.MaxTxns, cfg.MaxReverts, cfg.NoPost = 4, 2, 0, true
+		st := chain.Run(c, cfg, chain.RunOpts{Exhaustive: true, Timeout: 20 * time.Minute})
+		add(st)
+		if st.Tags["v2:immature!mislabel"] == 0 {
+			c.Infra("vacuity: no payout was presented as mature in its own block")
+		}
+	}
 	// exhaustive v2 revision sequences inside one block with the revision defects (verdicts only)
 	{
 		p := chain.Shapes()["v2only"]
